@@ -23,6 +23,7 @@ MONITORS = {
     'rsnap': Mon2.RestartSnap, 'c06': Mon2.C06Hold, 'c08': Mon2.C08Flows,
     'c45': Mon2.C45AbsTriggers, 'c25': Mon2.C25DataStore,
     'c27': Mon2.C27Reload, 'c33': Mon2.C33Xtriggers,
+    'c29': Mon2.C29Set, 'c30': Mon2.C30Remove,
 }
 
 
